@@ -81,13 +81,29 @@ fn run_case(ctx: &mut Ctx, c: &J, _n: u64) -> Outcome {
                 let n0 = rows.len();
                 let mut out = Vec::new();
                 let mut lenok = true;
+                let mut byname = true;
+                let names: Vec<String> = rows.columns().iter().map(|c| c.name().to_string()).collect();
                 while let Some(r) = rows.next() {
                     if rows.len() + out.len() + 1 != n0 {
                         lenok = false;
                     }
+                    // Row::len(), Row[name]: a name denotes the FIRST result column that carries it (self-joins and
+                    // repeated projections repeat names); has_column agrees
+                    if r.len() != names.len() {
+                        lenok = false;
+                    }
+                    for name in names.iter() {
+                        let first = names.iter().position(|n| n == name).unwrap();
+                        if !r.has_column(name) || r[name.as_str()] != r[first] {
+                            byname = false;
+                        }
+                    }
+                    if r.has_column("No.Such") {
+                        byname = false;
+                    }
                     out.push(J::Array((0..r.len()).map(|i| j::val_norm(&r[i])).collect()));
                 }
-                Ok((json!({"cols": cols, "rows": out}), lenok && out.len() == n0))
+                Ok((json!({"cols": cols, "rows": out}), lenok && out.len() == n0, byname))
             }
             Err(e) => Err(e.to_string()),
         }
@@ -97,13 +113,15 @@ fn run_case(ctx: &mut Ctx, c: &J, _n: u64) -> Outcome {
         Ok(Err(e)) => {
             if c["want"].get("err").is_some() { None } else { Some(("query-res", format!("select failed ({}) where the specification gives a result", e))) }
         }
-        Ok(Ok((got, lenok))) => {
+        Ok(Ok((got, lenok, byname))) => {
             if c["want"].get("err").is_some() {
                 Some(("query-res", "select succeeded where the specification says Err (unknown table or column)".to_string()))
             } else if got != c["want"] {
                 Some(("query-rows", format!("result differs: {}", crate::walk::diff(&got, &c["want"]))))
             } else if !lenok {
-                Some(("query-len", "Rows::len() disagrees with the rows yielded".to_string()))
+                Some(("query-len", "Rows::len() / Row::len() disagree with the rows and columns yielded".to_string()))
+            } else if !byname {
+                Some(("query-byname", "Row[name] / Row::has_column disagree with the first result column of that name".to_string()))
             } else {
                 None
             }
